@@ -253,7 +253,11 @@ def gen_cases(rng, n_ridge, n_esn, n_legacy, n_run, thorough=False):
             cfg += [(-3 if i % 2 == 0 else -2, "threading"), (-4, "threading")] + ([(-2, "loky")] if i % 5 == 0 else [])
         if thorough:
             cfg += [(2, "loky"), (4, "multiprocessing"), (8, "threading"), (-1, "threading")][: 2 + i % 3]
-        cases.append({"kind": "esn", "din": din, "dout": dout, "N": N, "warmup": warmup, "bias": rng.random() < 0.7,
+        # a data set of exactly ONE series with a warm-up > 0 (array, [array], 3-D array of length 1)
+        w1 = rng.choice([1, 2])
+        X1, Y1 = gen_dataset(rng, din, dout, 1, w1, tmax=7, tmin=2)
+        cases.append({"kind": "esn", "w1": w1, "X1": X1[0], "Y1": Y1[0],
+                      "din": din, "dout": dout, "N": N, "warmup": warmup, "bias": rng.random() < 0.7,
                       "ridge": str(Fraction(rng.choice([1, 2, 4]), 4)), "lr": rng.choice(["1", "1/2", "1/4"]),
                       "act": rng.choice(["id", "relu", "hardtanh"]),
                       "W": rand_rows(rng, N, N, lim=2, maxpow=2), "Win": rand_rows_nz(rng, N, din),
@@ -386,7 +390,24 @@ def run_esn(c, dwell_ms=1.0):
                                "n_tasks": len(tasks), "threads": len({t["tid"] for t in tasks}),
                                "overlaps": overlapping(tasks), "sched": sched, "task_seq": match_tasks(tasks, grams),
                                "XXT": np.asarray(px).tolist(), "YXT": np.asarray(py).tolist()})
-    return {"states": [s.tolist() for s in states], "sols": sols, "scheds": scheds}
+    single = None
+    if "X1" in c:
+        x1, y1, w1 = farr(c["X1"], c["din"]), farr(c["Y1"], c["dout"]), c["w1"]
+        s1 = np.array(twin.run(x1, reset=True))
+        ssols = []
+        for how, X, Y, k, be in (("array", x1, y1, 1, "sequential"), ("[array]", [x1], [y1], 1, "sequential"),
+                                 ("3-D array of length 1", x1[None], y1[None], 1, "sequential"),
+                                 ("[array] workers=2 threading", [x1], [y1], 2, "threading"),
+                                 ("array workers=-1 threading", x1, y1, -1, "threading")):
+            esn, res, rd = mk_esn(c, k, be, "one")
+            esn.fit(X, Y, warmup=w1)
+            ssols.append(dict(wb(rd), how="esn single series as %s, warmup=%d" % (how, w1)))
+        # the same retained timesteps given directly to a Ridge node (explicit retained-timestep solution)
+        from reservoirpy.nodes import Ridge
+        ref = Ridge(ridge=float(Fraction(c["ridge"])), input_bias=c["bias"], name=uname("rd1ref"))
+        ref.fit(s1[w1:], y1[w1:])
+        single = {"states": s1.tolist(), "sols": ssols, "ref": dict(wb(ref), how="Ridge on the retained timesteps states[%d:]" % w1)}
+    return {"states": [s.tolist() for s in states], "sols": sols, "scheds": scheds, "single": single}
 
 
 def legacy_uses_lock(workers, nseq):
@@ -553,6 +574,11 @@ def to_coq(c, o):
         canon = coqlist([qseqs(S, c["Y"])])
         out.append(("solutions", "chk_solutions %s %s %s %s %s %s %s" % (
             coqbool(bias), nat(c["N"]), nat(c["dout"]), nat(w), canon, q(c["ridge"]), sols_term(o["sols"]))))
+        if o.get("single"):
+            sg = o["single"]
+            out.append(("single series with warm-up", "chk_solutions %s %s %s %s %s %s %s" % (
+                coqbool(bias), nat(c["N"]), nat(c["dout"]), nat(c["w1"]), coqlist([coqlist([qrows(sg["states"], c["Y1"])])]),
+                q(c["ridge"]), sols_term(sg["sols"] + [sg["ref"]]))))
         for r in o["scheds"]:
             lab = "schedule %s workers=%s backend=%s" % (r.get("what", "esn-fit"), r["workers"], r["backend"])
             if not r["program_order"] or r["task_seq"] is None:
@@ -716,6 +742,11 @@ def _judge_all(c, dwell_ms=1.0):
                 add(_viol("isolation:same-name-solution", "copy %s: solution after interleaved partial fits differs from the one-shot fit on its own sequences" % who,
                           c, r["ref"], {"W": r["W"], "b": r["b"]}))
     elif c["kind"] in ("esn", "legacy"):
+        if o.get("single"):
+            r1 = o["single"]["ref"]
+            for s in o["single"]["sols"]:
+                if not (_close(r1["W"], s["W"]) and _close(r1["b"], s["b"])):
+                    add(_viol("batching:esn-single-series-warmup", "'%s' does not train on exactly the retained timesteps: differs from '%s'" % (s["how"], r1["how"]), c, r1, s))
         ref = o["sols"][0]
         for r in o["scheds"]:
             add(_sched_violations(c, r, r.get("what", "esn-fit")))
